@@ -51,6 +51,8 @@ func (e *Engine) buildVC(key string, con *Contract) (res *FuncResult) {
 		return
 	}
 	c := NewCtx(e.Prelude)
+	extraDecls, extraSeen = nil, map[string]bool{}
+	defer func() { c.Extra = append([]string{}, extraDecls...) }()
 	x := &Exec{E: e, C: c, Entry: State{}, Top: fn, TopCon: con, Assumed: map[string]bool{}, Inlined: map[string]bool{},
 		UsedCon: map[string]bool{}, nonnil: map[string]bool{}, knownLen: map[string]int{}, unfolded: map[string]bool{}, goalSeq: map[string]int{}}
 	res.Ctx = c
